@@ -309,3 +309,93 @@ def custom_sections(F):
     if not okE:
         r.violate("%s | custom emission" % ei["path"], F.loc(ei), "custom sections are not emitted by a plain forward loop copying name→name and data→data")
     return r
+
+
+# ---------------------------------------------------------------- R-TYPE-FIELD-FLOW
+TYPE_DEST_SRC = {"is_final": "is_final", "supertype_idx": "super_type", "shared": "shared", "mutable": "mutable", "element_type": "fields"}
+
+
+def type_field_flow(F):
+    """In Module::encode_type every attribute of the emitted subtype is a pure copy/conversion of the like-named Types field:
+    is_final←is_final, supertype_idx←super_type, shared←shared, mutable←mutable(+position), element_type←fields(+position) —
+    no other field mixed in, no boolean/arithmetic operator, no literal."""
+    r = RuleResult("R-TYPE-FIELD-FLOW",
+                   "Module::encode_type copies each attribute of a type to the like-named attribute of the encoded subtype without combining it with another field, an operator or a literal (is_final, supertype, shared, per-field mutability and storage type)")
+    fn = F.one_fn(name="encode_type", self_adt="Module")
+    r.analysed.append(fn["path"])
+    n = 0
+    for m in walk(fn["body"]):
+        if m.get("k") != "Match":
+            continue
+        for arm in m["arms"]:
+            leafs = [l for l in pat_alternatives(arm["pat"]) if l.get("k") == "Struct" and l.get("adt") == TYPES and l.get("variant")]
+            if not leafs or diverges(arm["body"]):
+                continue
+            leaf = leafs[0]
+            origin = {}
+            for fname, sub in leaf["fields"]:
+                for b in walk(sub):
+                    if b.get("k") == "Binding":
+                        origin[b["hid"]] = fname
+            # loop-derived locals: element of an iteration over a bound field inherits its origin; enumerate index is neutral
+            changed = True
+            while changed:
+                changed = False
+                for lp in walk(arm["body"]):
+                    if lp.get("k") == "Match" and lp.get("src") == "ForLoopDesugar":
+                        srcs = {origin[x["res"]["hid"]] for x in walk(lp["scrut"]) if x.get("k") == "Path" and x.get("res", {}).get("hid") in origin and origin[x["res"]["hid"]] != "#idx"}
+                        enum = any(x.get("k") == "MethodCall" and x["method"] == "enumerate" for x in walk(lp["scrut"]))
+                        for inner in walk(lp["arms"][0]["body"]):
+                            if inner.get("k") == "Match" and inner is not lp:
+                                for a2 in inner["arms"]:
+                                    if a2["pat"].get("variant") == "Some":
+                                        bs = [b for b in walk(a2["pat"]) if b.get("k") == "Binding"]
+                                        for i, b in enumerate(bs):
+                                            val = "#idx" if (enum and i == 0 and len(bs) > 1) else (next(iter(srcs)) if len(srcs) == 1 else None)
+                                            if val and origin.get(b["hid"]) != val:
+                                                origin[b["hid"]] = val
+                                                changed = True
+                                break
+            # bindings introduced by matching on (a projection of) a bound field inherit that field's origin
+            changed = True
+            while changed:
+                changed = False
+                for mm in walk(arm["body"]):
+                    scr = None
+                    pats = []
+                    if mm.get("k") == "Match" and mm.get("src") not in ("ForLoopDesugar",):
+                        scr, pats = mm["scrut"], [a2["pat"] for a2 in mm["arms"]]
+                    elif mm.get("k") == "LetExpr":
+                        scr, pats = mm["init"], [mm["pat"]]
+                    elif mm.get("k") == "Let" and "init" in mm:
+                        scr, pats = mm["init"], [mm["pat"]]
+                    if scr is None:
+                        continue
+                    srcs = {origin[x["res"]["hid"]] for x in walk(scr) if x.get("k") == "Path" and x.get("res", {}).get("hid") in origin} - {"#idx"}
+                    if len(srcs) != 1:
+                        continue
+                    for pt in pats:
+                        for b in walk(pt):
+                            if b.get("k") == "Binding" and b["hid"] not in origin:
+                                origin[b["hid"]] = next(iter(srcs))
+                                changed = True
+            for lit in walk(arm["body"]):
+                if lit.get("k") != "Struct" or "rest" in lit or not (lit.get("adt") or "").startswith("wasm_encoder::"):
+                    continue
+                for d, val in lit["fields"]:
+                    want = TYPE_DEST_SRC.get(d)
+                    if want is None:
+                        continue
+                    n += 1
+                    used = {origin.get(x["res"]["hid"], "?" + x["res"].get("name", "")) for x in walk(val) if x.get("k") == "Path" and x.get("res", {}).get("r") == "local"}
+                    used.discard("#idx")
+                    ops = [x.get("op") for x in walk(val) if x.get("k") == "Binary"] + ["!" for x in walk(val) if x.get("k") == "Unary" and x.get("op") == "!"]
+                    lits = [x.get("lit") for x in walk(val) if x.get("k") == "Lit"]
+                    ok = used == {want} and not ops and not lits
+                    r.ob(ok, {"variant": leaf["variant"], "dest": d, "from": sorted(used), "operators": ops})
+                    if not ok:
+                        r.violate("%s | %s.%s" % (fn["path"], leaf["variant"], d), F.loc(fn, val),
+                                  "encode_type(%s) computes `%s` from %s%s%s instead of copying the type's own `%s`: the encoded type is not the one requested" % (
+                                      leaf["variant"], d, sorted(used) or "nothing", (" with operator(s) " + ",".join(ops)) if ops else "", (" and literal(s) " + ",".join(lits)) if lits else "", want))
+    r.count("copied_attributes", n)
+    return r
